@@ -75,6 +75,12 @@ theorem tie_rpod_own_writes : C19.rpodOwnWrites =
 /-- every entry point of ReservationToPodEventHandler converts through NewReservePod (old and new object on update) -/
 theorem tie_rpod_adapter_calls : C19.rpodAdapterCalls = [("OnAdd", 1), ("OnUpdate", 2), ("OnDelete", 1)] := by decide
 
+/-- the adapter's filter as modelled by Model/C19Adapter.lean: active = node name set ∧ phase ∈ {Available, Waiting};
+    the filter = ValidateReservation ∧ IsReservationActive on the (unwrapped) object -/
+theorem tie_adapter_filter : C19.activePhases = ["ReservationAvailable", "ReservationWaiting"] ∧
+    C19.activeNeedsNode = true ∧ C19.filterCalls = ["ValidateReservation", "IsReservationActive"] ∧
+    C19.filterUnwrapsTombstone = true := by decide
+
 /-- PreBindReservation persists on the Reservation object it is given (not on its template) -/
 theorem tie_prebind_reservation_target : C19.preBindReservationTarget =
     [("nodenumaresource", "the-reservation-parameter"), ("deviceshare", "the-reservation-parameter")] := by decide
